@@ -28,6 +28,24 @@ RULE = ("4-12 strictly increasing knots with random spacing and values x limit p
         "non-trivial = limits not both inside the knot range; distinct by (knots, limits)")
 
 
+_GL = np.polynomial.legendre.leggauss(6)
+
+
+def area_by_pieces(sy, knots, a, b):
+    """Area under the function between a and b by an integrator that owes nothing to FITPACK: between consecutive
+    knots the function is a cubic (constant outside the knots), which 6-point Gauss-Legendre integrates exactly up to
+    rounding; an adaptive rule across the kinks of the third derivative is only good to 1e-7."""
+    if a == b:
+        return 0.0
+    lo, hi = min(a, b), max(a, b)
+    cuts = [lo] + [float(k) for k in knots if lo < k < hi] + [hi]
+    total = 0.0
+    for c0, c1 in zip(cuts, cuts[1:]):
+        mid, half = 0.5 * (c0 + c1), 0.5 * (c1 - c0)
+        total += half * float(np.sum(_GL[1] * np.array([float(sy(mid + half * t)) for t in _GL[0]])))
+    return total if a < b else -total
+
+
 def run(ctx):
     common.import_spowtd()
     import scipy.integrate as si
@@ -37,9 +55,16 @@ def run(ctx):
     ob_contract = "FITPACK contract spot checks (knot interpolation 1e-12, splint = quad(splev) 1e-9)"
     for _ in range(nsets):
         xs, ys = hyd.gen_knots(ctx.rng)
-        sy = sym.SplineSpecificYield(list(xs), list(ys))
-        xmin, xmax = xs[0], xs[-1]
         inp0 = {"zeta_knots_mm": xs, "sy_knots": ys}
+        try:
+            sy = sym.SplineSpecificYield(list(xs), list(ys))
+            float(sy(xs[0]))
+        except Exception as e:  # noqa
+            ctx.case(("c14", tuple(xs), tuple(ys)), True)
+            ctx.violation("impl-violation", "c14Holds", {"input": inp0, "impl": repr(e)[:200], "oracle": {
+                "name": "c14Holds", "result": False, "witness": {"why": "the specific yield cannot be constructed / evaluated", "exception": repr(e)[:200]}}})
+            continue
+        xmin, xmax = xs[0], xs[-1]
         # the property's first sentence
         vals = [float(sy(x)) for x in xs]
         knots_ok = all(abs(v - y) <= 1e-12 * max(1.0, abs(y)) for v, y in zip(vals, ys))
@@ -50,6 +75,33 @@ def run(ctx):
                 "name": "c14Holds", "result": False,
                 "witness": {"why": "does not pass through its knots" if not knots_ok else "not constant outside the knot range"}}})
             continue
+        # evaluation along a record: an array of levels inside, below and above the knots, with missing samples
+        # (NaN) and infinities among them; the value at a level must not depend on its neighbours in the call
+        rec = [xmin - ctx.rng.uniform(0.5, 200), xmax + ctx.rng.uniform(0.5, 200)] + [ctx.rng.uniform(xmin - 20, xmax + 20) for _ in range(8)]
+        for junk in ctx.rng.sample([float("nan"), float("nan"), float("inf"), float("-inf")], ctx.rng.randint(0, 3)):
+            rec.insert(ctx.rng.randrange(len(rec) + 1), junk)
+        for dtype in (np.float64, np.float32):
+            arr = np.array(rec, dtype=dtype)
+            try:
+                together = [float(v) for v in np.atleast_1d(sy(arr))]
+                alone = [float(sy(x)) for x in arr]
+            except Exception as e:  # noqa
+                together, alone = None, "%s: %s" % (type(e).__name__, e)
+            ok_el = together is not None and len(together) == len(alone) and all(
+                (a_ == b_) or (a_ != a_ and b_ != b_) for a_, b_ in zip(together, alone))
+            ok_flat = together is not None and all(
+                (t_ == float(sy(xmin)) if x < xmin else t_ == float(sy(xmax)) if x > xmax else True)
+                for x, t_ in zip(rec, together) if x == x)
+            ctx.case(("c14-array", tuple(xs), str(rec), dtype.__name__), True)
+            ctx.obligation("values along an array of levels = values of the levels one at a time; constant outside the knots", ok_el and ok_flat)
+            if not (ok_el and ok_flat):
+                ctx.violation("impl-violation", "c14Holds", {"input": dict(inp0, levels=[repr(x) for x in rec], dtype=dtype.__name__),
+                              "impl": {"together": together, "one_at_a_time": alone}, "oracle": {
+                    "name": "c14Holds", "result": False,
+                    "witness": {"why": "the value at a level depends on the other levels of the same call"
+                                if not ok_el else "not constant outside the knot range"}}})
+                break
+        abs_total = sum(abs(area_by_pieces(sy, xs, k0, k1)) for k0, k1 in zip(xs, xs[1:]))
         for a, b in hyd.limit_pairs(ctx.rng, xmin, xmax, xs, nlim):
             with hyd.record_fitpack() as (evals, splints):
                 try:
@@ -71,22 +123,17 @@ def run(ctx):
             same = m == f2h(got)
             ctx.obligation(ob_glue, same)
             # the property's own clause: area under the same function, by an independent integrator
-            pts = sorted({min(max(p, min(a, b)), max(a, b)) for p in (xmin, xmax)})
-            area = 0.0
-            if a != b:
-                cuts = [min(a, b)] + [p for p in pts if min(a, b) < p < max(a, b)] + [max(a, b)]
-                for c0, c1 in zip(cuts, cuts[1:]):
-                    area += si.quad(lambda x: float(sy(x)), c0, c1, epsabs=1e-11, epsrel=1e-11)[0]
-                if a > b:
-                    area = -area
+            area = area_by_pieces(sy, xs, a, b)
             # relative to the width of the range as well: a tiny range has a tiny, but not zero, area
             # relative 1e-8, plus the cancellation error of FITPACK's antiderivative differences (1e-11 absolute):
             # a tiny range has a tiny, but not zero, area
-            ok_area = abs(got - area) <= 1e-8 * abs(area) + 1e-11
+            # FITPACK integrates by differencing an antiderivative that starts at the lowest knot: its absolute error
+            # is a few ulps of the largest partial integral (large for splines that overshoot between close knots)
+            ok_area = abs(got - area) <= 1e-8 * abs(area) + 1e-11 + 64 * 2.3e-16 * abs_total
             anti = float(sy.integrate(b, a)) == -got
             for lo, hi, v in splints:
                 if xmin <= lo <= hi <= xmax:
-                    ref = si.quad(lambda x: float(sy(x)), lo, hi, epsabs=1e-12, epsrel=1e-12)[0]
+                    ref = area_by_pieces(sy, xs, lo, hi)
                     ctx.obligation(ob_contract, abs(ref - v) <= 1e-9 * max(1.0, abs(ref)))
             if len(ctx.samples) < 3 and not inside:
                 ctx.sample({"knots": list(zip(xs, ys))[:4], "a": a, "b": b, "integrate": got, "quad": area,
@@ -119,6 +166,6 @@ def replay(ctx, doc):
         return all(abs(float(sy(x)) - y) < 1e-12 * max(1, abs(y)) for x, y in zip(inp["zeta_knots_mm"], inp["sy_knots"]))
     a, b = inp["a"], inp["b"]
     got = float(sy.integrate(a, b))
-    area = si.quad(lambda x: float(sy(x)), a, b, limit=200, points=[p for p in (inp["zeta_knots_mm"][0], inp["zeta_knots_mm"][-1]) if min(a, b) < p < max(a, b)] or None)[0]
-    print("integrate:", got, "quad:", area)
-    return abs(got - area) <= 1e-7 * max(1.0, abs(area))
+    area = area_by_pieces(sy, [float(x) for x in inp["zeta_knots_mm"]], a, b)
+    print("integrate:", got, "area by pieces:", area)
+    return abs(got - area) <= 1e-8 * abs(area) + 1e-11
